@@ -15,16 +15,20 @@ def run(mods, fns, repo="/repo", verbose=True):
     for m in mods:
         mod = importlib.import_module("contracts." + m); mod.declare(S)
         if hasattr(mod, "declare2"): mod.declare2(S)
+        if hasattr(mod, "declare3"): mod.declare3(S)
     E = Engine(prog, S)
     for q in fns:
         qq = [k for k in S.fns if k.endswith("." + q) or k.endswith(":" + q)]
         assert len(qq) == 1, (q, qq)
         info = verify.verify_function(E, qq[0])
         print(info)
+    import os, re
+    if os.environ.get("PYVC_ONLY"):
+        rx = re.compile(os.environ["PYVC_ONLY"])
+        E.obligations = [o for o in E.obligations if rx.search(o.name)]
     t0 = time.time()
-    import os
     fast = bool(os.environ.get("PYVC_FAST"))
-    res = solve.discharge(E, E.obligations, jobs=16, timeout_ms=10000, use_cvc5=not fast, model_phase=not fast)
+    res = solve.discharge(E, E.obligations, jobs=16, timeout_ms=int(os.environ.get("PYVC_TIMEOUT", "10000")), use_cvc5=not fast, model_phase=not fast)
     print(f"solve {time.time()-t0:.1f}s, {len(E.obligations)} instances")
     bad = 0
     for r in res:
